@@ -625,6 +625,7 @@ func main() {
 		faults                           = map[string]int{}
 		samples                          []any
 		perScen                          = map[string]int{}
+		ntPerScen                        = map[string]int{}
 		classes                          = map[string]*classInfo{}
 		leaks                            int
 		timedOut, stepsOut               int
@@ -655,6 +656,7 @@ func main() {
 		hashes[r.Scenario+r.TraceHash] = true
 		if r.Nontrivial {
 			nontriv++
+			ntPerScen[r.Scenario]++
 			ntHashes[r.Scenario+r.TraceHash] = true
 		}
 		for k, c := range r.Probes {
@@ -846,33 +848,34 @@ func main() {
 	wall := time.Since(t0).Seconds()
 	dn := len(ntHashes)
 	cov := map[string]any{
-		"evaluations":         total,
-		"distinct_nontrivial": dn,
-		"rule":                cfg.Rule,
-		"samples":             samples,
-		"distinct_traces":     len(hashes),
-		"nontrivial_runs":     nontriv,
-		"scheduler_steps":     steps,
-		"simulated_seconds":   float64(simNs) / 1e9,
-		"runs_per_hour":       float64(total) / exploreWall.Hours(),
-		"runs_per_scenario":   perScen,
-		"faults_fired":        faults,
-		"probes":              probes,
-		"real_components":     cfg.Real,
-		"stub_components":     cfg.Stub,
-		"seed_base":           base,
-		"build_wall_s":        buildWall.Seconds(),
-		"explore_wall_s":      exploreWall.Seconds(),
-		"workers":             nw,
-		"worker_crashes":      crashes,
-		"harness_errors":      harness,
-		"nondeterministic":    nondet,
-		"runs_hit_horizon":    timedOut,
-		"runs_hit_step_cap":   stepsOut,
-		"goroutine_leak_runs": leaks,
-		"violation_classes":   names,
-		"known_finding_hits":  knownHits,
-		"exhaustive":          cfg.Exhaustive && *tier != "" && !time.Now().After(deadline.Add(time.Hour)),
+		"evaluations":                  total,
+		"distinct_nontrivial":          dn,
+		"rule":                         cfg.Rule,
+		"samples":                      samples,
+		"distinct_traces":              len(hashes),
+		"nontrivial_runs":              nontriv,
+		"scheduler_steps":              steps,
+		"simulated_seconds":            float64(simNs) / 1e9,
+		"runs_per_hour":                float64(total) / exploreWall.Hours(),
+		"runs_per_scenario":            perScen,
+		"nontrivial_runs_per_scenario": ntPerScen,
+		"faults_fired":                 faults,
+		"probes":                       probes,
+		"real_components":              cfg.Real,
+		"stub_components":              cfg.Stub,
+		"seed_base":                    base,
+		"build_wall_s":                 buildWall.Seconds(),
+		"explore_wall_s":               exploreWall.Seconds(),
+		"workers":                      nw,
+		"worker_crashes":               crashes,
+		"harness_errors":               harness,
+		"nondeterministic":             nondet,
+		"runs_hit_horizon":             timedOut,
+		"runs_hit_step_cap":            stepsOut,
+		"goroutine_leak_runs":          leaks,
+		"violation_classes":            names,
+		"known_finding_hits":           knownHits,
+		"exhaustive":                   cfg.Exhaustive && *tier != "" && !time.Now().After(deadline.Add(time.Hour)),
 	}
 	if !cfg.Exhaustive {
 		delete(cov, "exhaustive")
@@ -897,6 +900,11 @@ func main() {
 	for k, v := range probes {
 		if v == 0 {
 			fmt.Printf("warning: probe %s never hit\n", k)
+		}
+	}
+	for sc, n := range perScen {
+		if n >= 20 && ntPerScen[sc] == 0 {
+			fmt.Printf("warning: scenario %s: none of its %d runs was non-trivial (blind work load?)\n", sc, n)
 		}
 	}
 	fmt.Printf("check %s tier=%s runs=%d nontrivial_distinct=%d steps=%d sim_s=%.1f wall_s=%.1f violations=%d crashes=%d harness=%d\n",
